@@ -476,7 +476,10 @@ def resize_facts(prep, config):
     m = re.search(r"'--size', type=size, default='(\d+)([KMGT]?B?)'", ast.unparse(find_func(prep.body, 'get_parser')))
     if not m:
         raise TranslateError('--size default not found')
-    return [f'Definition resize_block_standard : bool := {coq_bool(txt == want)}.',
+    second = [n for n in f.body if isinstance(n, ast.With)][1:2]
+    order = bool(second) and [ast.unparse(x) for x in second[0].body] == ['remove_items(fs, conf)', 'copy_items(fs, conf)', 'rewrite_cmdline(fs, conf)']
+    return [f'Definition prepare_order_standard : bool := {coq_bool(order)}.',
+            f'Definition resize_block_standard : bool := {coq_bool(txt == want)}.',
             f'Definition size_parser_standard : bool := {coq_bool(size_ok)}.',
             f'Definition size_default_mantissa : N := {coq_N(int(m.group(1)))}.',
             f'Definition size_default_suffix : list N := {coq_bytes(m.group(2))}.']
